@@ -26,6 +26,7 @@ type Clause struct {
 	Label string
 	E     Expr
 	Src   string
+	Assumed bool // ensures_assumed: used by callers, not checked against the body
 }
 
 type Param struct {
@@ -117,7 +118,7 @@ type ContractSet struct {
 
 var clauseKeywords = map[string]bool{
 	"func": true, "loop": true, "struct": true, "spec": true, "lemma": true, "axiom": true, "const": true,
-	"requires": true, "ensures": true, "assigns": true, "invariant": true, "decreases": true, "mode": true,
+	"requires": true, "ensures": true, "ensures_assumed": true, "viewfunc": true, "assigns": true, "invariant": true, "decreases": true, "mode": true,
 	"pure": true, "trusted": true, "guarded_by": true, "holds": true, "holds_r": true, "may_panic": true,
 	"use": true, "havoc_at": true, "ghost": true, "assume": true, "unroll": true, "vars": true, "hyp": true, "concl": true,
 	"nosafety": true, "call": true, "extern": true, "lock_invariant": true,
@@ -310,6 +311,32 @@ func (cs *ContractSet) parseFile(path, pkgPath string) error {
 				}
 				cs.Funcs[k] = fc
 				curF = fc
+			case "viewfunc":
+				// viewfunc <VIEW> <header>: a second contract for a function that already has one, used instead of it by the
+				// checks whose spec names this view ("view": "<VIEW>"): each check is self-consistent (the function is verified,
+				// and its callers are checked, against the same contract), two properties may describe one function in
+				// different ghost vocabularies
+				reset()
+				t := strings.TrimSpace(rc.text)
+				sp := strings.IndexAny(t, " \t")
+				if sp < 0 {
+					return fail(fmt.Errorf("viewfunc needs a view name and a function header"))
+				}
+				view := t[:sp]
+				fc, err := parseFuncHeader(strings.TrimSpace(t[sp:]))
+				if err != nil {
+					return fail(err)
+				}
+				if fc.IsIface {
+					return fail(fmt.Errorf("viewfunc is for repository functions, not interface methods"))
+				}
+				fc.File, fc.PkgPath, fc.Line = path, pkgPath, rc.line
+				k := pkgPath + "#" + fc.Key + "@" + view
+				if _, dup := cs.Funcs[k]; dup {
+					return fail(fmt.Errorf("duplicate contract for %s", k))
+				}
+				cs.Funcs[k] = fc
+				curF = fc
 			case "loop":
 				// "loop 1" inside a func, or "loop Func#1"
 				t := rc.text
@@ -422,12 +449,17 @@ func (cs *ContractSet) parseFile(path, pkgPath string) error {
 				} else if curLem != nil {
 					curLem.Mode = m
 				}
-			case "requires", "ensures", "invariant", "assume":
+			case "requires", "ensures", "invariant", "assume", "ensures_assumed":
 				c, err := parseClause(rc.text)
 				if err != nil {
 					return fail(err)
 				}
 				switch {
+				case rc.kw == "ensures_assumed" && curF != nil:
+					// a post-condition callers may use but that is NOT checked against the body (ghost definitions that
+					// another property attaches to this function): an assumption, listed in the evidence
+					c.Assumed = true
+					curF.Ensures = append(curF.Ensures, c)
 				case rc.kw == "invariant" && curL != nil:
 					curL.Invariants = append(curL.Invariants, c)
 				case rc.kw == "invariant" && curS != nil:
